@@ -11,7 +11,7 @@ rm -rf "$S"; mkdir -p "$S/sim/.cargo" "$S/out"
 trap 'rm -rf "$S"' EXIT
 sed "s#path = \"/repo\"#path = \"$S/repo\"#" "$VERIF/sim/Cargo.toml" > "$S/sim/Cargo.toml"
 cp "$VERIF/sim/Cargo.lock" "$S/sim/"; cp "$VERIF/sim/.cargo/config.toml" "$S/sim/.cargo/"
-ln -s "$VERIF/sim/src" "$S/sim/src"
+cp -r "$VERIF/sim/src" "$S/sim/src"   # a snapshot: edits made while this runs do not leak in
 cp "$VERIF/known_findings.json" "$S/out/"
 ALLCHECKS="C01 C02 C03 C04 C05 C06 C07 C08 C09 C10 C11 C12 C13 C14 C17 C19 C20"
 patches=("$@")
@@ -28,6 +28,10 @@ for p in "${patches[@]}"; do
   exp=""
   if [[ "$p" == */mutants/* ]]; then
     exp=$(python3 -c "import json,sys,os; e=json.load(open('$VERIF/mutants/expect.json')); print(' '.join(e.get(os.path.basename('$p')[:-6],{}).get('caught_by',[])))")
+  elif [ -f "$(dirname "$p")/expect" ]; then
+    # an 'expect' file next to a seeded patch overrides the target property: the checks that are to catch it
+    # (empty = deliberately not judged, see NOTE.md there)
+    exp=$(cat "$(dirname "$p")/expect")
   elif [ -f "$(dirname "$p")/meta.json" ]; then
     exp=$(python3 -c "import json; m=json.load(open('$(dirname "$p")/meta.json')); print(m.get('property',''))")
   fi
